@@ -14,6 +14,10 @@ CLAIMED = {
             "Theorems C20_format/C20_value/C20_course/C20_fields hold for every finite binary64 latitude/longitude in range (given exactly as m/2^k), all 361 courses and all optional-field combinations of the model of decToMinDec/NewCourse/PosReport.Message (as repaired by two fix: commits); the model is run against the real functions on dense grids and values adjacent to whole degrees and minutes.",
             "IEEE-754 round-to-nearest-even of the single multiplication and math.Round are modelled exactly in N arithmetic (validated bit-for-bit by correspondence); fmt %0Nd modelled; time.Format, fmt %f and Message.SetBody are inputs of the model. The value bound includes the 2^-53 relative rounding error of the multiplication.",
             "DESIGN.md section 6 C20"),
+    "C19": ("Coq proof (component fidelity for all tuples, short targets, registry refinement over all histories) + correspondence on url.Parse results and registry histories",
+            "Theorems C19_components/C19_short_target/C19_dispatch hold for all schemes, hosts, digipeater lists and targets and for all register/unregister/dial histories of the model of ParseURL's post-processing and of the dialer registry; the model is run against transport.ParseURL/DialURL on composed URLs, arbitrary raw strings and random histories, with goroutines exercising the registry concurrently.",
+            "net/url.Parse is standard-library code: its result (scheme, host, path, host parameter) is the model's input; upper-casing is modelled for ASCII. Atomicity of the registry operations (one mutex held for each whole access) is read from the code and only sampled by concurrent runs: the linearizability clause is partial with respect to the Go runtime.",
+            "DESIGN.md section 6 C19"),
 }
 
 NOT_YET = {}
